@@ -15,12 +15,14 @@ package main
 
 import (
 	"context"
+	"errors"
 	"flag"
 	"fmt"
 	"os"
 	"runtime"
 	"sort"
 	"strings"
+	"sync"
 	"sync/atomic"
 	"time"
 
@@ -31,6 +33,7 @@ import (
 type gateCase struct {
 	W         int    `json:"w"`
 	P         int    `json:"p"`
+	Cancel    bool   `json:"context_cancelled_by_first_computation"`
 	Default   bool   `json:"default_parallelism"` // no option given: the library's default (runtime.NumCPU())
 	Observed  int    `json:"observed_in_flight"`
 	Completed bool   `json:"completed"`
@@ -47,8 +50,11 @@ const (
 )
 
 // runGate runs one (w,p) experiment on a fresh graph.
-func runGate(w, p int, useDefault bool, base int) gateCase {
-	out := gateCase{W: w, P: p, Default: useDefault}
+func runGate(w, p int, useDefault bool, base int, cancelFirst bool) gateCase {
+	out := gateCase{W: w, P: p, Default: useDefault, Cancel: cancelFirst}
+	ctx, cancel := context.WithCancel(context.Background())
+	defer cancel()
+	var once sync.Once
 	var g *incr.Graph
 	if useDefault {
 		g = incr.New()
@@ -63,6 +69,11 @@ func runGate(w, p int, useDefault bool, base int) gateCase {
 		vars[i] = incr.Var(g, base+i)
 		m := incr.Map(g, vars[i], func(v int) int {
 			n := inflight.Add(1)
+			if cancelFirst {
+				// the bound must hold whatever happens to the context: the first computation to
+				// start cancels it, then blocks like all the others
+				once.Do(cancel)
+			}
 			for {
 				h := high.Load()
 				if n <= h || high.CompareAndSwap(h, n) {
@@ -81,7 +92,7 @@ func runGate(w, p int, useDefault bool, base int) gateCase {
 		obs[i] = o
 	}
 	errc := make(chan error, 1)
-	go func() { errc <- g.ParallelStabilize(context.Background()) }()
+	go func() { errc <- g.ParallelStabilize(ctx) }()
 
 	floor := w
 	if p < floor {
@@ -111,7 +122,7 @@ func runGate(w, p int, useDefault bool, base int) gateCase {
 	select {
 	case err := <-errc:
 		out.Completed = true
-		if err != nil {
+		if err != nil && !(cancelFirst && errors.Is(err, context.Canceled)) {
 			out.Err = err.Error()
 		}
 	case <-time.After(doneWait):
@@ -179,7 +190,7 @@ func main() {
 	for _, k := range plan {
 		var best gateCase
 		for r := 0; r < *reps || r == 0; r++ {
-			c := runGate(k.w, k.p, k.def, rng.Range(0, 1000))
+			c := runGate(k.w, k.p, k.def, rng.Range(0, 1000), (k.w+k.p)%3 == 0)
 			rep.Evaluations++
 			if r == 0 || c.Observed > best.Observed || (c.Err != "" && best.Err == "") {
 				best = c
